@@ -420,6 +420,10 @@ asn_decode(const asn_codec_ctx_t *opt_codec_ctx,
         errno = ENOENT;
         ASN__DECODE_FAILED;
 #else
+        if(!td->op->oer_decoder) {
+            errno = ENOENT; /* Transfer syntax is not defined for this type. */
+            ASN__DECODE_FAILED;
+        }
         return oer_decode(opt_codec_ctx, td, sptr, buffer, size);
 #endif
 
@@ -429,6 +433,10 @@ asn_decode(const asn_codec_ctx_t *opt_codec_ctx,
         errno = ENOENT;
         ASN__DECODE_FAILED;
 #else
+        if(!td->op->uper_decoder) {
+            errno = ENOENT; /* Transfer syntax is not defined for this type. */
+            ASN__DECODE_FAILED;
+        }
         return uper_decode_complete(opt_codec_ctx, td, sptr, buffer, size);
 #endif
 
